@@ -9,8 +9,8 @@ What extraction is *supposed* to leave on disk (C07), written without reference 
 * `EntryView`: what the archive reader delivers for one entry;
 * `treeOf`: the expected result — entry by entry, in archive order: every directory on the way to the
   entry exists afterwards (created with the default mode if it was missing), a file entry's path
-  holds exactly the entry's bytes (an existing file keeps its mode), and a recorded mode is applied to
-  the entry's path (low twelve bits);
+  holds exactly the entry's bytes (an existing file keeps its mode); then the recorded modes are
+  applied to the entries' paths (low twelve bits), deepest paths first;
 * `Consistent`: the decidable side condition under which extraction must succeed with that result.
 -/
 
@@ -103,11 +103,6 @@ def setMode (root : Path) (n : Name) (mode : Option Nat) (fs : FS) : FS :=
   | none => fs
   | some m => chmodAt fs (resolveFrom root (relComps n)) m
 
-/-- Expected result of the seekable extractor: each entry is placed, then its mode applied. -/
-def treeOf (c : Cfg) (root : Path) : List EntryView → FS → FS
-  | [], fs => fs
-  | e :: es, fs => treeOf c root es (setMode root e.name e.mode (putEntry c root e fs))
-
 def putAll (c : Cfg) (root : Path) : List EntryView → FS → FS
   | [], fs => fs
   | e :: es, fs => putAll c root es (putEntry c root e fs)
@@ -116,10 +111,48 @@ def setModes (root : Path) : List (Name × Option Nat) → FS → FS
   | [], fs => fs
   | m :: ms, fs => setModes root ms (setMode root m.1 m.2 fs)
 
-/-- Expected result of the streaming extractor: all entries are placed, then all modes applied (this
-differs from `treeOf` only where a mode changes what a later step does: set-group-ID inheritance). -/
-def treeOfStream (c : Cfg) (root : Path) (es : List EntryView) (fs : FS) : FS :=
-  setModes root (es.map fun e => (e.name, e.mode)) (putAll c root es fs)
+/-! ### the order in which recorded modes are applied
+
+Modes are applied after every entry has been placed, the deepest paths first and paths of the same depth
+in archive order (a stable sort by descending depth): the contents of a directory get their modes while
+the directory still has the default mode, and of several entries denoting the same path the last one
+decides. -/
+
+def depthStep (d : Nat) : Comp → Nat
+  | .normal _ => d + 1
+  | .parentDir => d - 1
+  | _ => d
+
+/-- How many levels below the target directory the entry's path ends (for a name that never climbs
+above its start): ordinary components count up, ".." counts down. -/
+def pathDepth (n : Name) : Nat := (components n).foldl depthStep 0
+
+/-- A recorded mode waiting to be applied: (depth, name, mode). -/
+abbrev Pending := Nat × Name × Nat
+
+def pendingOf : List (Name × Option Nat) → List Pending
+  | [] => []
+  | (n, some m) :: ms => (pathDepth n, n, m) :: pendingOf ms
+  | (_, none) :: ms => pendingOf ms
+
+/-- Insert in front of the first element that is not deeper. -/
+def insertMode (x : Pending) : List Pending → List Pending
+  | [] => [x]
+  | y :: ys => if y.1 ≤ x.1 then x :: y :: ys else y :: insertMode x ys
+
+/-- Stable sort by descending depth. -/
+def sortModes : List Pending → List Pending
+  | [] => []
+  | x :: xs => insertMode x (sortModes xs)
+
+/-- The recorded modes of an archive in the order of application. -/
+def modeOrder (ms : List (Name × Option Nat)) : List (Name × Option Nat) :=
+  (sortModes (pendingOf ms)).map fun p => (p.2.1, some p.2.2)
+
+/-- Expected result of both extractors: all entries are placed in archive order, then the recorded
+modes are applied, deepest paths first. -/
+def treeOf (c : Cfg) (root : Path) (es : List EntryView) (fs : FS) : FS :=
+  setModes root (modeOrder (es.map fun e => (e.name, e.mode))) (putAll c root es fs)
 
 /-! ### the side condition -/
 
@@ -150,6 +183,34 @@ def NodeIs (e : EntryView) (n : Node) : Prop :=
   if isDirName e.name then ∃ m, n = .dir m ∧ ∀ md, e.mode = some md → m = md &&& 0o7777
   else ∃ m, n = .file e.data m ∧ ∀ md, e.mode = some md → m = md &&& 0o7777
 
+/-- The directories (relative to the target) in which the kernel looks a component up while it
+resolves the entry's path for `chmod`: the positions before each component, and the final directory
+itself when the path ends in "." -/
+def searchedR : List Comp → List Path
+  | [] => []
+  | _ :: up => positionsR up
+
+def searched (e : EntryView) : List Path :=
+  searchedR (relComps e.name).reverse ++ (if tailDot e.name then [target e] else [])
+
+/-- No recorded mode locks the extractor out of a path whose mode is applied later. -/
+def Unlocked (es : List EntryView) : Prop :=
+  ∀ e1 ∈ es, ∀ e2 ∈ es, ∀ m1 ∈ e1.mode.toList, isDirName e1.name = true →
+    hasBits (m1 &&& 0o7777) 0o100 = false → e2.mode.isSome = true → target e1 ∈ searched e2 →
+    (target e1).length < (target e2).length
+
+def isNormal : Comp → Bool
+  | .normal _ => true
+  | _ => false
+
+/-- Every name consists of ordinary components only (no "..", no final "."; empty segments and inner
+"." do not reach the kernel's view of the path). -/
+def PlainNames (es : List EntryView) : Prop :=
+  ∀ e ∈ es, tailDot e.name = false ∧ (relComps e.name).all isNormal = true
+
+instance (es : List EntryView) : Decidable (PlainNames es) := by
+  unfold PlainNames; infer_instance
+
 def lastNormal (cs : List Comp) : Bool :=
   match cs.getLast? with
   | some (.normal _) => true
@@ -171,11 +232,15 @@ def lastParentOrEmpty (cs : List Comp) : Bool :=
 4. `kinds`: no path is needed both as a regular file and as a directory (a file that is also a proper
    directory prefix of another entry, or a file and a directory entry with the same path).  Duplicate
    files and duplicate directories are fine: the last one wins.
-5. `perms`: the caller is the superuser, or no mode that gets applied can lock the extractor out:
-   default modes and the target's mode give the owner write+search on directories and write on files,
-   and so does every recorded mode.  (Not the weakest possible: a restrictive mode is harmless when
-   nothing below / nothing again is written afterwards; the streaming extractor applies modes last and
-   would only need search permission.) -/
+5. `perms`: the caller is the superuser, or the modes the extractor does not choose — the umask's
+   defaults and the target directory's own mode — give the owner write+search on directories and write
+   on files, and no RECORDED mode locks the extractor out: a directory entry whose mode lacks owner
+   search is not among the directories another mode-carrying entry's path is walked through (`searched`),
+   unless that entry lies deeper (its mode is then applied first).  For names made of ordinary
+   components only this holds for ANY permission bits (`unlocked_of_plain`): the directories walked
+   through are proper ancestors.  It can fail only for names with ".." or a final "." (e.g. "./" with
+   mode 000 followed by "./" again, or "a/../b/" and "b/../a/" both with mode 000: no order of
+   application can succeed, chmod(2) takes a path). -/
 def Consistent (c : Cfg) (rootMode : Nat) (es : List EntryView) : Prop :=
   (∀ e ∈ es, (enclosedName e.name).isSome = true ∧ e.openErr = none ∧ e.readErr = none)
   ∧ (∀ e ∈ es, isDirName e.name = false →
@@ -185,8 +250,10 @@ def Consistent (c : Cfg) (rootMode : Nat) (es : List EntryView) : Prop :=
   ∧ (∀ e1 ∈ es, ∀ e2 ∈ es, ∀ p ∈ (filePath e1).toList, p ∉ dirPaths e2)
   ∧ (c.priv = true ∨
       (hasBits c.dirMode 0o300 = true ∧ hasBits c.fileMode 0o200 = true ∧ hasBits rootMode 0o300 = true ∧
-        ∀ e ∈ es, ∀ m ∈ e.mode.toList,
-          hasBits (m &&& 0o7777) (if isDirName e.name then 0o300 else 0o200) = true))
+        Unlocked es))
+
+instance (es : List EntryView) : Decidable (Unlocked es) := by
+  unfold Unlocked; infer_instance
 
 instance (c : Cfg) (rootMode : Nat) (es : List EntryView) : Decidable (Consistent c rootMode es) := by
   unfold Consistent; infer_instance
